@@ -1,8 +1,9 @@
 (* C14 — A superrun is exactly the ordered concatenation of its subruns.
    Only property theorems, each closed by `exact <lemma>` and followed by Print Assumptions.
-   Full statements that the faithful model refutes (two defects of the pinned tree, see
-   design_notes/C14.md) stay visible as C14_full_*, with *_refuted and *_partial next to them. *)
-From SV Require Import Model.Annot Model.Superrun Proof.SuperrunKeyProof Proof.AnnotProof
+   The three statements that the pinned tree violated (findings F1, F2; repaired in /repo by 317aec4 and
+   bea6d1c, which the model now mirrors) are proved in full; the *_pinned_refuted theorems keep the
+   witnesses on the pinned behaviour (Model/SuperrunPinned.v). *)
+From SV Require Import Model.Annot Model.Superrun Model.SuperrunPinned Proof.SuperrunKeyProof Proof.AnnotProof
      Proof.SuperrunRowsProof Proof.SuperrunExactProof Proof.SuperrunTotalProof Proof.SuperrunMainProof
      Proof.SuperrunWitness.
 From Coq Require Import Permutation Sorted.
@@ -34,8 +35,8 @@ Theorem C14_annot_concat_inverse : forall l t a1 a2,
 Proof. exact annot_concat_inverse. Qed.
 Print Assumptions C14_annot_concat_inverse.
 
-(* when a split leaves the annotation alone, continuous mode refuses and the try/except fall-back to
-   merge mode returns the annotation again *)
+(* two chunks that carry the same annotation: continuous mode refuses, the try/except fall-back to
+   merge mode returns the annotation *)
 Theorem C14_annot_concat_fallback : forall l,
   wfa l -> NoDup (keys l) ->
   mergable_check (merge_runs (Some l) (merge_runs (Some l) [])) true = Ok l /\
@@ -44,9 +45,9 @@ Proof. exact annot_concat_unsplit. Qed.
 Print Assumptions C14_annot_concat_fallback.
 
 (* Chunk.split then Chunk.concatenate on a superrun chunk whose annotation is exact (T = the sub-runs'
-   spans, touching): the chunk that was split -- rows, range, run id, subruns, superrun *)
+   spans): the chunk that was split -- rows, range, run id, subruns, superrun *)
 Theorem C14_chunk_concat_split_inverse : forall T prun,
-  wfa T -> NoDup (keys T) -> has_none_key T = false -> prun < 0 -> tight T ->
+  wfa T -> NoDup (keys T) -> has_none_key T = false ->
   forall c t0 early c1 c2 allow c',
     exactc T prun c -> asplit c t0 early = Ok (c1, c2) ->
     aconcatenate [Some c1; Some c2] allow = Ok c' -> c' = c.
@@ -54,10 +55,11 @@ Proof. exact asplit_aconcatenate_id. Qed.
 Print Assumptions C14_chunk_concat_split_inverse.
 
 (* ---------------------------------------------------------------------------------------------
-   superrun_annotations_exact: the invariant through split, concatenate, rechunk
+   superrun_annotations_exact: the invariant through split, concatenate, rechunk -- for ANY exact chunk,
+   also one that begins or ends in a gap between sub-runs (promised_continuity False)
    --------------------------------------------------------------------------------------------- *)
 Theorem C14_exact_through_split : forall T prun,
-  wfa T -> has_none_key T = false -> prun < 0 -> tight T ->
+  wfa T -> has_none_key T = false ->
   forall c t0 early c1 c2,
     exactc T prun c -> asplit c t0 early = Ok (c1, c2) ->
     exactc T prun c1 /\ exactc T prun c2 /\ cend (abase c1) = cstart (abase c2) /\
@@ -75,7 +77,7 @@ Proof. exact aconcatenate_exact. Qed.
 Print Assumptions C14_exact_through_concatenate.
 
 Theorem C14_exact_through_rechunk : forall T prun,
-  wfa T -> NoDup (keys T) -> has_none_key T = false -> prun < 0 -> tight T ->
+  wfa T -> NoDup (keys T) -> has_none_key T = false ->
   forall is_sr cs cache e res,
     cache_ok T prun cache e -> Forall (exactc T prun) cs -> chain_from e cs ->
     arechunk_from is_sr cache cs = Ok res ->
@@ -84,43 +86,67 @@ Theorem C14_exact_through_rechunk : forall T prun,
 Proof. exact arechunk_exact. Qed.
 Print Assumptions C14_exact_through_rechunk.
 
-(* the full statement (any gaps between the sub-runs), refuted by the faithful model *)
-Definition C14_full_superrun_annotations_exact : Prop := full_superrun_annotations_exact.
-Theorem C14_superrun_annotations_exact_refuted : ~ C14_full_superrun_annotations_exact.
-Proof. exact superrun_annotations_exact_refuted. Qed.
-Print Assumptions C14_superrun_annotations_exact_refuted.
-
-(* sub-runs that touch: every chunk yielded, stored (rechunked across sub-run borders or not) or
-   re-read records exactly the runs it covers with the spans it covers; the yielded chunks have the
-   boundaries and rows of the sub-runs' chunks; any number of superrun-capable levels *)
-Theorem C14_superrun_annotations_exact_partial : forall T prun,
-  wfa T -> NoDup (keys T) -> has_none_key T = false -> prun < 0 -> tight T ->
+(* the full statement (formerly C14_full_superrun_annotations_exact): valid sub-runs with ANY gaps between
+   them (lgaps: nothing of T lies between consecutive chunks), chained in spec order; every chunk yielded,
+   stored (rechunked across sub-run borders or not) or re-read records exactly the runs it covers with the
+   spans it covers; any number of superrun-capable levels *)
+Theorem C14_superrun_annotations_exact : forall T prun,
+  wfa T -> NoDup (keys T) -> has_none_key T = false -> prun < 0 ->
   forall dt k tgt L subruns,
     concat subruns = map (stored_of dt k tgt) L -> L <> [] -> Forall (lgood T prun) L ->
-    lchain (la (hd (mklc 0 0 0 []) L)) L ->
+    lorder 0 (la (hd (mklc 0 0 0 []) L)) L -> lgaps T (la (hd (mklc 0 0 0 []) L)) L ->
   forall levels write out savs,
     levels <> [] ->
     superrun_get prun write levels subruns = Ok (out, savs) ->
     Forall (exactc T prun) out /\
-    map out_view out = map (fun x => (la x, le x, lrows x, Some [mkspan (Some (lr x)) (la x) (le x)])) L /\
+    map out_view out = map out_view (fl_outs prun (hd (mklevel 0 0 false 0) levels) (la (hd (mklc 0 0 0 []) L)) L) /\
     (write = true ->
      Forall (fun sv => saved_exact T prun sv /\
                        forall cs', superrun_reload sv = Ok cs' -> Forall (exactc T prun) cs') savs).
-Proof. exact superrun_exact_if_ok. Qed.
-Print Assumptions C14_superrun_annotations_exact_partial.
+Proof. exact superrun_exact. Qed.
+Print Assumptions C14_superrun_annotations_exact.
+
+(* on the pinned tree (Chunk.split before bea6d1c) the statement was false *)
+Theorem C14_superrun_annotations_exact_pinned_refuted :
+  exists T prun L subruns levels out,
+    valid_instance T prun L /\ concat subruns = map (stored_of 11 1 4) L /\ levels <> [] /\
+    superrun_get_pinned prun levels subruns = Ok out /\ ~ Forall (exactc T prun) out.
+Proof. exact superrun_annotations_exact_pinned_refuted. Qed.
+Print Assumptions C14_superrun_annotations_exact_pinned_refuted.
 
 (* ---------------------------------------------------------------------------------------------
    superrun_rows
    --------------------------------------------------------------------------------------------- *)
-Definition C14_full_superrun_rows : Prop := full_superrun_rows.
-Theorem C14_superrun_rows_refuted : ~ C14_full_superrun_rows.
-Proof. exact superrun_rows_refuted. Qed.
-Print Assumptions C14_superrun_rows_refuted.
 
-(* whatever get(superrun) returns -- any gaps, any depth of the superrun-capable level, per-sub-run
+(* the full statement (formerly C14_full_superrun_rows): on valid sub-runs with any gaps get(superrun) returns,
+   with the rows of the sub-runs concatenated in the order of the spec, and every stored level re-reads to
+   the chunks that were stored.  (When levels rechunk on saving, returning also needs the Rechunker not to
+   fail, which is C07's; see C14_superrun_rows_returned for that case.) *)
+Theorem C14_superrun_rows : forall T prun,
+  wfa T -> NoDup (keys T) -> has_none_key T = false -> prun < 0 ->
+  forall dt k tgt L subruns,
+    concat subruns = map (stored_of dt k tgt) L -> L <> [] -> Forall (lgood T prun) L ->
+    lorder 0 (la (hd (mklc 0 0 0 []) L)) L -> lgaps T (la (hd (mklc 0 0 0 []) L)) L ->
+  forall levels write,
+    levels <> [] -> (write = true -> Forall (fun lv => l_rechunk lv = false) levels) ->
+    exists out savs,
+      superrun_get prun write levels subruns = Ok (out, savs) /\
+      rows_of_stream out = flat_map lrows L /\
+      (write = true -> Forall (fun sv => exists cs, sv = map save_chunk cs /\ superrun_reload sv = Ok cs) savs).
+Proof. exact superrun_total. Qed.
+Print Assumptions C14_superrun_rows.
+
+Theorem C14_superrun_rows_pinned_refuted :
+  exists T prun L subruns levels e,
+    valid_instance T prun L /\ concat subruns = map (stored_of 10 1 4) L /\ levels <> [] /\
+    superrun_get_pinned prun levels subruns = Err e.
+Proof. exact superrun_rows_pinned_refuted. Qed.
+Print Assumptions C14_superrun_rows_pinned_refuted.
+
+(* whatever get(superrun) returns -- any input, any depth of the superrun-capable level, per-sub-run
    levels and superrun levels rechunking or not, written or not, re-read from the stored superrun --
-   holds the rows of the sub-runs concatenated in the order of the spec *)
-Theorem C14_superrun_rows_partial : forall prun write low levels srcs out savs,
+   holds the rows of the sub-runs concatenated in the order in which they are chained *)
+Theorem C14_superrun_rows_returned : forall prun write low levels srcs out savs,
   superrun_full prun write low levels srcs = Ok (out, savs) ->
   let want := flat_map (fun rs => stored_rows (snd rs)) srcs in
   rows_of_stream out = want /\
@@ -128,28 +154,13 @@ Theorem C14_superrun_rows_partial : forall prun write low levels srcs out savs,
    Forall (fun sv => stored_rows sv = want /\
                      forall cs, superrun_reload sv = Ok cs -> rows_of_stream cs = want) savs).
 Proof. exact superrun_full_rows. Qed.
-Print Assumptions C14_superrun_rows_partial.
+Print Assumptions C14_superrun_rows_returned.
 
-Theorem C14_combining_rows_partial : forall low levels srcs cs,
+Theorem C14_combining_rows_returned : forall low levels srcs cs,
   combining_full low levels srcs = Ok cs ->
   rows_of_stream cs = flat_map (fun rs => stored_rows (snd rs)) srcs.
 Proof. exact combining_full_rows. Qed.
-Print Assumptions C14_combining_rows_partial.
-
-(* and on touching sub-runs without rechunking nothing can fail: it returns, and every stored level
-   re-reads to the chunks that were stored *)
-Theorem C14_superrun_total_partial : forall T prun,
-  wfa T -> NoDup (keys T) -> has_none_key T = false -> prun < 0 -> tight T ->
-  forall dt k tgt L subruns,
-    concat subruns = map (stored_of dt k tgt) L -> L <> [] -> Forall (lgood T prun) L ->
-    lchain (la (hd (mklc 0 0 0 []) L)) L ->
-  forall levels write,
-    levels <> [] -> (write = true -> Forall (fun lv => l_rechunk lv = false) levels) ->
-    exists out savs,
-      superrun_get prun write levels subruns = Ok (out, savs) /\
-      (write = true -> Forall (fun sv => exists cs, sv = map save_chunk cs /\ superrun_reload sv = Ok cs) savs).
-Proof. exact superrun_total. Qed.
-Print Assumptions C14_superrun_total_partial.
+Print Assumptions C14_combining_rows_returned.
 
 (* the order: define_run orders the spec by run start ... *)
 Theorem C14_define_run_by_start : forall start_of data,
@@ -158,19 +169,21 @@ Theorem C14_define_run_by_start : forall start_of data,
 Proof. intros s d. split; [exact (define_run_sorted s d)|exact (define_run_perm s d)]. Qed.
 Print Assumptions C14_define_run_by_start.
 
-(* ... but what a DataDirectory hands back is ordered by run id: full statement refuted, partial
-   statement for run ids whose order agrees with the run starts *)
-Definition C14_full_spec_by_start : Prop := full_spec_by_start.
-Theorem C14_spec_by_start_refuted : ~ C14_full_spec_by_start.
-Proof. exact spec_by_start_refuted. Qed.
-Print Assumptions C14_spec_by_start_refuted.
+(* ... and (formerly C14_full_spec_by_start) the sub-runs are made and chained in order of run start whatever
+   order the storage frontend hands the spec back in *)
+Theorem C14_spec_by_start : forall start_of data,
+  StronglySorted (fun a b => start_of a <= start_of b) (chained_spec start_of data) /\
+  Permutation (chained_spec start_of data) (dedup data).
+Proof. intros s d. split; [exact (chained_spec_sorted s d)|exact (chained_spec_perm s d)]. Qed.
+Print Assumptions C14_spec_by_start.
 
-Theorem C14_spec_by_start_partial : forall start_of data,
-  (forall a b, In a data -> In b data -> a <= b -> start_of a <= start_of b) ->
-  StronglySorted (fun a b => start_of a <= start_of b) (sub_run_spec start_of data) /\
-  Permutation (sub_run_spec start_of data) (dedup data).
-Proof. intros s d H. split; [exact (sub_run_spec_by_start s d H)|exact (sub_run_spec_perm s d)]. Qed.
-Print Assumptions C14_spec_by_start_partial.
+(* on the pinned tree (check_cache before 317aec4) they were chained in the order read back, which a
+   DataDirectory sorts by run id *)
+Theorem C14_spec_by_start_pinned_refuted :
+  exists start_of data,
+    ~ StronglySorted (fun a b => start_of a <= start_of b) (sub_run_spec start_of data).
+Proof. exact spec_by_start_pinned_refuted. Qed.
+Print Assumptions C14_spec_by_start_pinned_refuted.
 
 (* ---------------------------------------------------------------------------------------------
    redefinition
